@@ -148,6 +148,12 @@ def cases(draw):
         rates = draw(G.rate_arrays(n, lo=-9, hi=1))
         zf = draw(st.sampled_from([0.0, 0.5, 0.9, 1.0]))
         counts = [0 if draw(st.floats(0, 1)) < zf else draw(st.sampled_from([1, 1, 2, 3, 17])) for _ in range(n)]
+        if draw(st.integers(0, 7)) == 0:
+            # many active bins with tiny rates: the likelihood is a sum of ~1e2 logs of ~1e-9 (a product would underflow)
+            shape = [draw(st.integers(40, 120)), draw(st.integers(1, 3))]
+            n = int(numpy.prod(shape))
+            rates = draw(G.rate_arrays(n, lo=-9, hi=-6))
+            counts = [draw(st.sampled_from([1, 1, 2, 0])) for _ in range(n)]
         return {"k": "arrays", "shape": shape, "rates": rates, "counts": counts}
     c = draw(G.setups(max_cells=12, max_mags=4, max_events=40, lo=-9, hi=1))
     c["k"] = "tests"
